@@ -133,12 +133,49 @@ def trained_ruleset_case(pws=None):
     return out
 
 
+def every_size_case(prop):
+    """the real `create_prince_wordlist` for every `--size` from 1 to the whole list, on a ruleset with more word types than the smallest
+    sizes and first pre-terminals that rank differently from their types (base x best group): each list is non-increasing in probability
+    and consists of the most probable words - the N best, the tied ones in any order"""
+    import contextlib
+    import io
+    rows = [('D1', 0.1875, [('7', 0.75), ('3', 0.25)]), ('D2', 0.15625, [('12', 0.25), ('21', 0.25), ('69', 0.25), ('23', 0.25)]),
+            ('D3', 0.15625, [('123', 0.875), ('321', 0.125)]),
+            ('D4', 0.125, [(w, 0.125) for w in ('1234', '2000', '2001', '1111', '4321', '0000', '1212', '6969')]),
+            ('D5', 0.125, [(w, 0.25) for w in ('12345', '54321', '11111', '00000')]), ('D6', 0.125, [('123456', 1.0)]),
+            ('D7', 0.125, [('1234567', 0.75), ('7654321', 0.25)])]
+    spec = {'terminals': {t: [[v, repr(p)] for v, p in vals] for t, _, vals in rows}, 'grammar': [[t, repr(bp)] for t, bp, _ in rows],
+            'prince': [[t, repr(bp)] for t, bp, _ in rows], 'omen_prob': [], 'mode': 'dyadic', 'encoding': 'utf-8'}
+    d = common.write_ruleset(os.path.join(common.scratch_dir('rules'), 'prsizes'), spec)
+    prob = {v: bp * p for _, bp, vals in rows for v, p in vals}
+    best = sorted(prob.values(), reverse=True)
+    common.use_impl()
+    from lib_princeling.wordlist_generation import create_prince_wordlist
+    viol = []
+    for lower in (False, True):
+        pcfg = common.load_grammar(d, skip_case=lower, folder='Prince')
+        for n in list(range(1, len(best) + 2)) + [None]:
+            buf = io.StringIO()
+            with contextlib.redirect_stdout(buf), contextlib.redirect_stderr(io.StringIO()):
+                create_prince_wordlist(pcfg, n)
+            words = buf.getvalue().split('\n')[:-1]
+            ps = [prob.get(w) for w in words]
+            want = best if n is None else best[:n]
+            if None in ps or ps != want:
+                viol.append({'property': prop, 'kind': 'size-not-most-probable-first', 'size': n, 'all_lower': lower, 'words': words[:8],
+                             'probabilities': [p for p in ps[:8]], 'expected_probabilities': want[:8], 'witness': {'every_size_case': True}})
+                break
+    return viol
+
+
 def run(ctx):
     rng = ctx.rng
     viol, samples = [], []
     dist = {'all_lower': {}, 'size': {}, 'tie_groups': 0}
     cases = nontrivial = runs = 0
     viol += trained_ruleset_case()
+    cases += 1
+    viol += every_size_case('C17')
     cases += 1
     runs += 1
     dist['trained_rulesets'] = 1
@@ -286,6 +323,8 @@ def run(ctx):
 
 
 def replay(ctx, payload):
+    if (payload.get('violation', {}).get('witness') or {}).get('every_size_case'):
+        return every_size_case('C17')
     if 'edge_case' in (payload.get('violation', {}).get('witness') or {}):
         return file_output_edge_cases(ctx)[0]
     w = payload.get('violation', {}).get('witness') or {}
